@@ -1415,7 +1415,7 @@ pub fn generate(seed: u64, profile: &GenProfile) -> Schema {
 // hostile naming profile (C14 / C17 only: values are never driven through
 // these corpora, so Rust paths need not be predictable)
 
-const HOSTILE: [&str; 86] = [
+pub const HOSTILE: [&str; 86] = [
     // Rust strict / reserved / path keywords (that the Thrift grammar does not use itself)
     "type", "self", "Self", "super", "crate", "async", "gen", "box", "dyn", "fn", "match", "impl",
     "trait", "move", "await", "yield", "loop", "while", "mod", "pub", "ref", "mut", "static", "use",
@@ -1438,7 +1438,7 @@ const HOSTILE: [&str; 86] = [
 /// profile does not draw them.
 pub const PRELUDE_UNQUALIFIED: [&str; 6] = ["Some", "None", "Ok", "Err", "Send", "Sync"];
 
-fn pick_name(rng: &mut Rng, taken: &mut Vec<String>, fallback: &str) -> String {
+pub(crate) fn pick_name(rng: &mut Rng, taken: &mut Vec<String>, fallback: &str) -> String {
     for _ in 0..6 {
         let n = (*rng.pick(&HOSTILE)).to_string();
         if !taken.contains(&n) {
